@@ -2,6 +2,8 @@ import Driver.Common
 import Lumina.Model.Sha256
 import Lumina.Model.Decoders
 import Lumina.Spec.C16
+import Driver.ConsensusE
+import Lumina.Model.C01Consts
 
 open Lumina.Util Lumina.Model.Nmt Lumina.Model.Eds Lumina.Model.Decoders
 
@@ -91,7 +93,7 @@ def dummyCodec : Codec :=
     recon := fun s _ => s.map (fun x => if x.isEmpty then List.replicate (shardSize s) 0 else x) }
 
 def stepRow (dah : Dah) (ws : List String) : String :=
-  match natArg? ws "idx", natArg? ws "side", hexListArg? ws "halves", parseOracle ws "ext" with
+  match natArg? ws "idx", natArg? ws "side", hexListArg? ws "halves", parseOracle ws "obs" with
   | some idx, some side, some halves, some ext =>
     let raw : RawRow := ⟨halves, i32OfU32 side⟩
     let k := halves.length
@@ -106,7 +108,7 @@ def stepRow (dah : Dah) (ws : List String) : String :=
 
 /-- outcome of a `befp` op: class word, and the panic site if the model predicts one -/
 def runBefp (dah : Dah) (ws : List String) : Option (String × Option Site) :=
-  match natArg? ws "hh", natArg? ws "height", hexArg? ws "hash", natArg? ws "index", natArg? ws "axis", parseOracle ws "rec" with
+  match natArg? ws "hh", natArg? ws "height", hexArg? ws "hash", natArg? ws "index", natArg? ws "axis", parseOracle ws "obs" with
   | some hh, some height, some hash, some index, some axis, some rec =>
     match (allArgs ws "sh").mapM parseBefpWord with
     | none => none
@@ -177,6 +179,14 @@ def step (st : St) (line : String) : St × String :=
       (st, match edsResponseFirstEncode dummyCodec len row with | .panic _ => "panic" | _ => "nopanic")
     | _, _ => (st, "bad-op")
   | "eh" :: _ => (st, "nopanic")
+  | "xbytes" :: _ => (st, match st with | none => "no-dah" | some _ => "nopanic")
+  | "ehv" :: _ =>
+    -- `ExtendedHeader::validate` on the value the op line spells out: group E's model with the constants of the source
+    match Driver.ConsensusE.parseEH ws "" with
+    | some p =>
+      (st, Driver.ConsensusE.showValOut
+            (Lumina.Model.HeaderVerify.validate p.prims Lumina.Model.HeaderVerify.sourceConsts p.eh) ++ " " ++ p.words)
+    | none => (st, "bad-op")
   | op :: _ =>
     match st with
     | none => (st, "no-dah")
